@@ -706,8 +706,8 @@ func (w *c15World) recordedEqualsDerived(last c15Req) *c15Viol {
 }
 
 // shape is the abstract state recorded as "distinct": the multiset over quotas of (depth,
-// parent-group flag, number of children, number of min keys), the number of namespace bindings, the
-// number of distinct max key sets and of distinct tree ids. Names and amounts are abstracted away.
+// parent-group flag, number of children capped at 2), the number of namespace bindings capped at 2,
+// the number of distinct max key sets and of distinct tree ids. Names and amounts are abstracted away.
 func (w *c15World) shape() string {
 	names := w.names()
 	infos := map[string]c15Info{}
@@ -728,12 +728,19 @@ func (w *c15World) shape() string {
 			d++
 		}
 		in := infos[n]
-		parts = append(parts, fmt.Sprintf("d%d/p%v/k%d/m%d", d, in.isParent, nkids[n], len(in.min)))
+		k := nkids[n]
+		if k > 2 {
+			k = 2
+		}
+		parts = append(parts, fmt.Sprintf("d%d/p%v/k%d", d, in.isParent, k))
 		bound += len(in.nss)
 		keysets[fmt.Sprint(c15KeysOf(in.max))] = true
 		trees[in.tree] = true
 	}
 	sort.Strings(parts)
+	if bound > 2 {
+		bound = 2
+	}
 	return fmt.Sprintf("%s|ns%d|keysets%d|trees%d", strings.Join(parts, " "), bound, len(keysets), len(trees))
 }
 
@@ -1180,7 +1187,7 @@ func (w *c15World) c15Mutate(r *kit.Rand, s c15Spec) (c15Spec, string) {
 func TestVerifC15Sampled(t *testing.T) {
 	defer c15Gates(t)()
 	cl := c15PodIndexClient()
-	kit.Run(t, kit.Config{Property: "C15", Unit: "sampled", Quick: 25000, Thorough: 600000,
+	kit.Run(t, kit.Config{Property: "C15", Unit: "sampled", Quick: 25000, Thorough: 400000,
 		Rule: "sampled: histories of 10-40 create/update/delete requests (interleaved with pod creations through ValidateAddPod and pod deletions) on one real quotaTopology over 4 names, parent in names+{root, absent label, missing}, isParent {true,false,absent}, tree {none,t1,t2}, namespaces = subsets of {n1,n2,n3} up to size 2, min/max over {cpu,memory} with each key absent or in {0,1,2,4}; 60% of the objects are proposed coherently with the current tree (parent group's key set, min<=max) and then perturbed, the rest uniformly; updates change 1-2 dimensions of the stored object (parent changes may target the quota itself or its descendants); oracle after every request; distinct = (op, outcome, tree shape incl. key sets) ; non-trivial = case with accepted and rejected requests, a tree of depth >= 2 and an accepted parent change",
 	}, func(c *kit.Case) {
 		r := c.R
